@@ -135,6 +135,8 @@ struct CliCase {
     diff: Option<usize>,
     /// The diff shows the file as renamed (from a path that no longer exists) and edited (`-M`).
     rename: bool,
+    /// The diff's only change deletes the first line of the file (`-U0`: `@@ -1 +0,0 @@`).
+    top_deletion: bool,
 }
 
 /// Symbolic links (CLI phase): a link to a regular file is a file of the tree like any other; a
@@ -160,7 +162,7 @@ fn check_cli(cfg: &Cfg, c: &CliCase, sink: &Sink) {
     // A link to a directory is not a file of the tree.
     let files_of_tree: Vec<&str> = tree.iter().copied().filter(|p| *p != DIR_LINK).collect();
     let expected = expected_scope(&files_of_tree, &globs, &ignores, &diff_files, c.diff.is_some());
-    let input = json!({"cli": true, "tree": c.tree, "globs": c.globs, "ignores": c.ignores, "diff": c.diff, "rename": c.rename});
+    let input = json!({"cli": true, "tree": c.tree, "globs": c.globs, "ignores": c.ignores, "diff": c.diff, "rename": c.rename, "top_deletion": c.top_deletion});
     thread_local! {
         static REPO: Scratch = Scratch::repo("c15");
         static PAIR: TreePair = TreePair::new("c15d");
@@ -168,6 +170,8 @@ fn check_cli(cfg: &Cfg, c: &CliCase, sink: &Sink) {
     REPO.with(|repo| {
         repo.clear();
         repo.write(".gitignore", "ign/\n");
+        // An `.ignore` file (ripgrep's convention) is not a git ignore file: it hides nothing.
+        repo.write(".ignore", "a/\nx.py\n");
         for (i, p) in tree.iter().enumerate() {
             // The file named in the diff carries the padding its diff was made with.
             let padding = if c.diff == Some(i) { "pad_a = 1\npad_b = 2\npad_c = 3\npad_d = 4\n" } else { "" };
@@ -189,7 +193,12 @@ fn check_cli(cfg: &Cfg, c: &CliCase, sink: &Sink) {
                 // longer exists; padded so that git recognises the rename despite the edit.
                 let padding = "pad_a = 1\npad_b = 2\npad_c = 3\npad_d = 4\n";
                 let old_name = if c.rename { format!("{}.old.py", tree[i]) } else { tree[i].to_string() };
-                pair.set_old(&old_name, &format!("{padding}{}", file_text(tree[i]).replace("value = 1", "value = 0")));
+                if c.top_deletion {
+                    // The only change: a first line that is gone.
+                    pair.set_old(&old_name, &format!("junk_line = 0\n{padding}{}", file_text(tree[i])));
+                } else {
+                    pair.set_old(&old_name, &format!("{padding}{}", file_text(tree[i]).replace("value = 1", "value = 0")));
+                }
                 pair.set_new(tree[i], &format!("{padding}{}", file_text(tree[i])));
                 pair.diff(0, &["-M"]).unwrap_or_default()
             })
@@ -227,7 +236,8 @@ fn check_cli(cfg: &Cfg, c: &CliCase, sink: &Sink) {
                 let missing: Vec<&String> = expected.difference(&got).collect();
                 let kind = if !extra.is_empty() { "file-outside-scope-examined" } else { "file-in-scope-skipped" };
                 let place = if cwd.is_empty() { "" } else { ":from-subdirectory" };
-                sink.fail(format!("C15:cli:{kind}{place}"), describe(cwd, &format!("expected scope {expected:?}; missing {missing:?}, extra {extra:?}")), input.clone());
+                let diff_kind = if c.top_deletion { ":diff-deletes-first-line-at-U0" } else { "" };
+                sink.fail(format!("C15:cli:{kind}{place}{diff_kind}"), describe(cwd, &format!("expected scope {expected:?}; missing {missing:?}, extra {extra:?}")), input.clone());
             }
         }
     });
@@ -235,7 +245,7 @@ fn check_cli(cfg: &Cfg, c: &CliCase, sink: &Sink) {
 }
 
 pub fn run(cfg: &Cfg, sink: &Arc<Sink>) -> Report {
-    let mut report = Report::new("cases = directory trees over paths {x.py, a/x.py, b/x.py, b/b/x.py, a/b/y.py, 'sp ace/x.py', d.d/x.py, b/b/b/z.py, hid/x.py, pkg.py/x.py (a directory named like a source file)} (every file holds one block named after its path) × 0..2 positional globs × 0..2 --ignore globs from {*.py, a/**, **/x.py, b/x.py, **, b/*, **/b/**, .hid/**, hid/*} (CLI phase also --ignore **/b and a/b, which equal a directory's own path, and the positional argument `a`, the plain name of a directory, which is a glob matching no file) × {no diff, diff naming any subset of ≤2 files}; library phase over an in-memory tree (all trees of ≤2, thorough ≤3, paths); CLI phase in real directories with hidden files, a .gitignore'd directory, a symbolic link to a file and one to a directory named like a source file, real `git diff` output (plain edits and rename+edit with -M) and every directory of the tree as current directory; oracle: the set of files with listed blocks equals ((walk ∖ hidden ∖ git-ignored) ∩ globs ∪ files named in the diff) ∖ --ignore, with `**` implied when run without globs and without diff; non-trivial = every case");
+    let mut report = Report::new("cases = directory trees over paths {x.py, a/x.py, b/x.py, b/b/x.py, a/b/y.py, 'sp ace/x.py', d.d/x.py, b/b/b/z.py, hid/x.py, pkg.py/x.py (a directory named like a source file)} (every file holds one block named after its path) × 0..2 positional globs × 0..2 --ignore globs from {*.py, a/**, **/x.py, b/x.py, **, b/*, **/b/**, .hid/**, hid/*} (CLI phase also --ignore **/b and a/b, which equal a directory's own path, and the positional argument `a`, the plain name of a directory, which is a glob matching no file) × {no diff, diff naming any subset of ≤2 files}; library phase over an in-memory tree (all trees of ≤2, thorough ≤3, paths); CLI phase in real directories with hidden files, a .gitignore'd directory, a symbolic link to a file and one to a directory named like a source file, real `git diff` output (plain edits, rename+edit with -M, and a deletion of the file's first line at -U0) and every directory of the tree as current directory; oracle: the set of files with listed blocks equals ((walk ∖ hidden ∖ git-ignored) ∩ globs ∪ files named in the diff) ∖ --ignore, with `**` implied when run without globs and without diff; non-trivial = every case");
     report.assume("globset decides whether a glob matches a path (same crate, default options, as the documented forms are defined by it)");
     let thorough = cfg.tier == Tier::Thorough;
     // Library phase.
@@ -283,9 +293,12 @@ pub fn run(cfg: &Cfg, sink: &Arc<Sink>) -> Report {
                 let mut diffs: Vec<Option<usize>> = vec![None];
                 diffs.extend((0..tree.len()).map(Some));
                 for diff in diffs {
-                    cases.push(CliCase { tree: tree.clone(), globs: globs.clone(), ignores: ignores.clone(), diff, rename: false });
+                    cases.push(CliCase { tree: tree.clone(), globs: globs.clone(), ignores: ignores.clone(), diff, rename: false, top_deletion: false });
                     if diff.is_some() && globs.len() <= 1 {
-                        cases.push(CliCase { tree: tree.clone(), globs: globs.clone(), ignores: ignores.clone(), diff, rename: true });
+                        cases.push(CliCase { tree: tree.clone(), globs: globs.clone(), ignores: ignores.clone(), diff, rename: true, top_deletion: false });
+                    }
+                    if diff.is_some() && globs.is_empty() {
+                        cases.push(CliCase { tree: tree.clone(), globs: globs.clone(), ignores: ignores.clone(), diff, rename: false, top_deletion: true });
                     }
                 }
             }
@@ -307,7 +320,7 @@ pub fn run(cfg: &Cfg, sink: &Arc<Sink>) -> Report {
 pub fn replay(cfg: &Cfg, input: &Value, sink: &Arc<Sink>) {
     let list = |k: &str| -> Vec<usize> { input[k].as_array().map(|a| a.iter().filter_map(|v| v.as_u64().map(|x| x as usize)).collect()).unwrap_or_default() };
     if input.get("cli").is_some() {
-        check_cli(cfg, &CliCase { tree: list("tree"), globs: list("globs"), ignores: list("ignores"), diff: input["diff"].as_u64().map(|x| x as usize), rename: input["rename"].as_bool().unwrap_or(false) }, sink);
+        check_cli(cfg, &CliCase { tree: list("tree"), globs: list("globs"), ignores: list("ignores"), diff: input["diff"].as_u64().map(|x| x as usize), rename: input["rename"].as_bool().unwrap_or(false), top_deletion: input["top_deletion"].as_bool().unwrap_or(false) }, sink);
     } else {
         let diff = if input["diff"].is_null() { None } else { Some(list("diff")) };
         check_lib(&LibCase { tree: list("tree"), globs: list("globs"), ignores: list("ignores"), diff }, sink);
